@@ -125,3 +125,25 @@ def shift_deviation(before, after, rtol):
             excess = dev - allowed
             worst = (dev <= allowed, j, dev, allowed)
     return worst[0], shift, worst[1], worst[2], worst[3]
+
+
+# ---------------------------------------------------------------------------------------------------- sections
+def section_mean(values, start, end):
+    """Section given as SAMPLE INDICES: the mean of the samples start, start+1, ..., end-1 and the largest magnitude among
+    them (local tolerance scale). Requires 0 <= start < end <= len(values)."""
+    seg = [float(values[j]) for j in range(int(start), int(end))]
+    return math.fsum(seg) / len(seg), max(abs(v) for v in seg)
+
+
+def whole_sample_time(t, dt, n):
+    """If the time t is the time of a sample, i.e. t == i*dt bit-for-bit for an integer 0 <= i < n AND t/dt evaluates to
+    exactly i (so that floor, round and ceil of the quotient all give i), return i, else None. A time window whose two ends
+    are such times contains exactly the samples i0..i1, whatever the rounding convention."""
+    t = float(t)
+    if not (t >= 0.0) or not math.isfinite(t) or dt <= 0:
+        return None
+    q = t / dt
+    i = int(round(q)) if math.isfinite(q) and q < 2 ** 52 else -1
+    if 0 <= i < n and float(i) == q and i * dt == t:
+        return i
+    return None
